@@ -350,9 +350,9 @@ def mutants():
 
     def bad(etype, types, get_subtypes, include_self, bound=None, concrete_only=False, ignore_variance=False):
         r = orig(etype, types, get_subtypes, include_self, bound, concrete_only, ignore_variance)
-        if not get_subtypes and not include_self:
-            return r + [etype]           # query leaks into the supertypes although not asked for
+        if get_subtypes and not include_self:
+            return r + [etype]           # the query leaks into its subtypes although not asked for
         return r
-    out.append(('find_supertypes returns the query although include_self=False',
+    out.append(('find_subtypes returns the query although include_self=False',
                 lambda: setattr(tu, '_find_types', bad), lambda: setattr(tu, '_find_types', orig)))
     return out
